@@ -178,7 +178,32 @@ func alStreamEvent(pk *alPkg, up bool, items []M) M {
 		outs = append(outs, alCmdVal(cm))
 	}
 	ev["back"] = outs
+	keptField(ev, pk, up, b)
 	return ev
+}
+
+// keptField: the sequence is decoded into a Commands variable, the caller KEEPS the result, then other (valid) bytes are
+// decoded into the same variable; what the caller kept must still be the first sequence
+var lastALBytes = map[string][]byte{}
+
+func keptField(ev M, pk *alPkg, up bool, b []byte) {
+	k := fmt.Sprintf("%s/%v", pk.name, up)
+	other, ok := lastALBytes[k]
+	lastALBytes[k] = append([]byte{}, b...)
+	if !ok || curCtx == nil || curCtx.rnd.Intn(3) != 0 {
+		return
+	}
+	var kept []alCmd
+	res, _ := observeFast(func() error {
+		var err error
+		kept, err = pk.unmarshalKeep(up, append([]byte{}, b...), append([]byte{}, other...))
+		return err
+	})
+	outs := []interface{}{}
+	for _, cm := range kept {
+		outs = append(outs, alCmdVal(cm))
+	}
+	ev["kerr"], ev["kept"] = res, outs
 }
 
 func alDecodeEvent(pk *alPkg, up bool, items []M, b []byte) M {
@@ -205,6 +230,7 @@ func alDecodeEvent(pk *alPkg, up bool, items []M, b []byte) M {
 		outs = append(outs, alCmdVal(cm))
 	}
 	ev["back"] = outs
+	keptField(ev, pk, up, b)
 	return ev
 }
 
